@@ -139,8 +139,13 @@ def strip_generics(path):
             keep = False
             if i == 0:
                 keep = True  # <T as Trait>::m  or <impl at ..>
-            elif path[i - 2:i] == '::' and (inner.startswith('impl ') or inner.startswith('impl at')):
+            elif path[i - 2:i] == '::' and inner.startswith('impl at'):
                 keep = True
+            elif path[i - 2:i] == '::' and inner.startswith('impl ') and path[j + 1:j + 3] == '::':
+                # `core::str::<impl str>::trim` (inherent impl segment after a module path) is kept;
+                # `Type::<impl Trait>::new` (a generic argument) is dropped
+                prev = ''.join(out)[:-2].split('::')[-1]
+                keep = (prev == '' or not prev[0].isupper())
             if keep:
                 out.append('<' + inner + '>')
             else:
